@@ -54,11 +54,17 @@ PAIRS = [('S1', 'M'), ('S2', 'M'), ('SI', 'G'), ('G', 'M'), ('F1', 'S1'), ('F1',
 
 
 class PoolSpec(hist.Spec):
-    def __init__(self, sid, level):
-        self.sid, self.level = sid, level
+    def __init__(self, sid, level, pre=()):
+        self.sid, self.level, self.pre = sid, level, tuple(pre)
 
     def build(self):
-        return make_pool(self.level)
+        pool = make_pool(self.level)
+        for op in self.pre:        # a non-initial start: a small tree already assembled and looked up by name
+            try:
+                self.apply(pool, op)
+            except Exception:
+                pass                # refused under this level (e.g. a second CX_1 under STRICT): the start is what results
+        return pool
 
     def alphabet(self, pool, hist_):
         ops = []
@@ -228,14 +234,16 @@ class PoolSpec(hist.Spec):
                                                             ':' + exc_class(ctx.exc) if ctx.exc else '', text), point, ctx.depth)
 
 
-SPECS = {'pool-T': PoolSpec('pool-T', TOLERANT), 'pool-S': PoolSpec('pool-S', STRICT)}
+PRE = (('add', 'S1', 'M'), ('add', 'F1', 'S1'), ('add', 'C1', 'F1'), ('read', 'S1', 'pid_3'), ('read', 'M', 'pid'), ('read', 'F1', 'cx_1'))
+SPECS = {'pool-T': PoolSpec('pool-T', TOLERANT), 'pool-S': PoolSpec('pool-S', STRICT),
+         'pool-T-assembled': PoolSpec('pool-T-assembled', TOLERANT, PRE), 'pool-S-assembled': PoolSpec('pool-S-assembled', STRICT, PRE)}
 
 
 def run(tier, seed, extra):
     total = Result()
     depth = 3 if tier == 'quick' else 4
     sids = common.rotate(sorted(SPECS), seed)
-    out = hist.bfs_many(__name__, sids, depth, tier, total)
+    out = hist.bfs_many(__name__, sids, depth, tier, total, depth_of={sid: depth - 1 for sid in sids if SPECS[sid].pre})
     per = {}
     for sid in sids:
         n, sizes = out[sid]
